@@ -77,6 +77,13 @@ CLAIMED["C10"] = {
     "technique": "contract-based deductive verification: constraint/objective formulation in both directions + optimality transfer by ghost instantiation of the solver contract",
 }
 
+CLAIMED["C03"] = {
+    "text": "The real in_hull_from_A / get_P_from_A / in_hull / convex_combination executed symbolically against the qhull (Delaunay) and cvxpy contracts. Corners and their images equal T(corners). Full-dimensional, finite bounds: the answer is True IF AND ONLY IF some x in the box has T(x) == B, both directions with explicit witnesses (x = sum lam_c corner_c from the hull weights; multilinear weights lam_c = prod t_k|(1-t_k) to refute 'outside'), the affine-independence precondition of qhull being discharged from det(A'cols) != 0 via a determinant identity. Fewer sources than receptors and unbounded sources (NNLS fallback): every capture of in-bound intensities is reported in gamut, by instantiating the solver's minimiser at explicit convex / conic weights with zero residual. Estimator dispatch (relative / absolute).",
+    "design_ref": "DESIGN.md section 6 C03",
+    "note": A_COMMON + " qhull is an assumed contract (find_simplex >= 0 <=> point in the closed hull; QhullError iff affinely degenerate, the degenerate / full-dimensional case being supplied as a ghost hint that is itself checked as an obligation); cvxpy solver contract as in C04; the 1e-8 isclose threshold of the fallback is not reachable by an exact-solver proof: the float behaviour is a recorded known finding. (nf,ns) in {(2,2),(2,3)} quick, up to (3,4) thorough; normalized (chromatic) membership is covered under C12.",
+    "technique": "contract-based deductive verification: reduction to convex-hull membership with explicit witnesses (zonotope lemma), qhull/solver contracts instantiated at ghost points, exact polynomial identities + z3",
+}
+
 NOT_APPLICABLE = {}
 
-FIX_COMMITS = ["b2d156a (np.trapz -> trapezoid)", "1caec1a (negative fit targets no longer declared positive cvxpy parameters)", "f3b37fa (batched_iteration bs > n)", "b98cd56 (poisson baseline tiling)", "d30d941 (minimize .copy())", "35d91a0 (minimize reshape order)", "b90b02d (minimize padded slack)", "7019c2d (excitation baseline)", "3901923 (excitation per-sample)", "b370f4e (adaptive default solver)"]
+FIX_COMMITS = ["b2d156a (np.trapz -> trapezoid)", "1caec1a (negative fit targets no longer declared positive cvxpy parameters)", "f3b37fa (batched_iteration bs > n)", "b98cd56 (poisson baseline tiling)", "d30d941 (minimize .copy())", "35d91a0 (minimize reshape order)", "b90b02d (minimize padded slack)", "7019c2d (excitation baseline)", "3901923 (excitation per-sample)", "b370f4e (adaptive default solver)", "cef6319 (gamut apex = capture at lb)"]
